@@ -425,9 +425,17 @@ func main() {
 	nd := len(docs)
 
 	if *mode == "race" {
-		// N=8 distinct documents at a time, each goroutine its own fonts; then a
-		// second pass where the SAME document is rendered by all goroutines
-		// (shared immutable inputs: UA stylesheets, hyphenation dictionaries)
+		// N=8 distinct documents at a time, each goroutine its own fonts
+		// first, while every lazily filled cache is still cold: each corpus
+		// document rendered by all goroutines at once (first use of the
+		// hyphenation dictionaries, shared stylesheets, ...)
+		for _, d := range loadCorpus() {
+			same := make([]Doc, batchN)
+			for i := range same {
+				same[i] = d
+			}
+			renderBatch(same)
+		}
 		for r := 0; r < *rounds; r++ {
 			for i := 0; i < nd; i += batchN {
 				j := i + batchN
@@ -437,11 +445,6 @@ func main() {
 				renderBatch(docs[i:j])
 			}
 		}
-		same := make([]Doc, batchN)
-		for i := range same {
-			same[i] = docs[0]
-		}
-		renderBatch(same)
 		fmt.Printf("race-mode: rendered %d documents in batches of %d, %d round(s)\n", nd, batchN, *rounds)
 		return
 	}
